@@ -7,59 +7,245 @@ import (
 	"github.com/gogpu/naga/ir"
 )
 
-// C06-U1: foldBinaryLiterals on i32 × i32 operands, all operators, all values.
-// Oracle: WGSL run-time semantics of the operator on i32 (wrap-around add/sub/mul,
-// truncating division with the WGSL results for /0 and MIN/-1, bitwise ops,
-// comparisons). Declining to fold is always acceptable.
-func ZZ_C06_foldBinary_i32() {
-	opn := zz.Choice("op", 18)
-	op := ir.BinaryOperator(opn)
+const zzNumBinOps = 18 // ir.BinaryAdd .. ir.BinaryShiftRight
+
+func zzCheckI32(got ir.LiteralValue, op ir.BinaryOperator, a, b int32, what string) {
+	val, isBool, bval, st := zzRefI32(op, a, b)
+	switch st {
+	case zzOK, zzErr:
+		// zzErr: the folder should have declined; producing the run-time value is tolerated,
+		// any other value is a substituted wrong constant.
+		if isBool {
+			zz.Assert(got == ir.LiteralValue(ir.LiteralBool(bval)), what+": i32 comparison folded to the wrong value")
+		} else {
+			zz.Assert(got == ir.LiteralValue(ir.LiteralI32(val)), what+": i32 operator folded to a value different from run-time evaluation")
+		}
+	}
+}
+
+func zzCheckU32(got ir.LiteralValue, op ir.BinaryOperator, a, b uint32, what string) {
+	val, isBool, bval, st := zzRefU32(op, a, b)
+	switch st {
+	case zzOK, zzErr:
+		if isBool {
+			zz.Assert(got == ir.LiteralValue(ir.LiteralBool(bval)), what+": u32 comparison folded to the wrong value")
+		} else {
+			zz.Assert(got == ir.LiteralValue(ir.LiteralU32(val)), what+": u32 operator folded to a value different from run-time evaluation")
+		}
+	}
+}
+
+func zzSameF32(got ir.LiteralValue, want float32) bool {
+	g, ok := got.(ir.LiteralF32)
+	if !ok {
+		return false
+	}
+	return zz.Same(float32(g), want) // bit identity up to NaN payload
+}
+
+func zzCheckF32(got ir.LiteralValue, op ir.BinaryOperator, a, b float32, what string) {
+	val, isBool, bval, st := zzRefF32(op, a, b)
+	if st != zzOK {
+		return
+	}
+	if isBool {
+		zz.Assert(got == ir.LiteralValue(ir.LiteralBool(bval)), what+": f32 comparison folded to the wrong value")
+	} else {
+		zz.Assert(zzSameF32(got, val), what+": f32 operator folded to a value different from correctly rounded evaluation")
+	}
+}
+
+// U1: foldBinaryLiterals, the free function used by the AST-level folder.
+func ZZ_C06_foldBinaryLiterals_i32() {
+	op := ir.BinaryOperator(zz.Choice("op", zzNumBinOps))
 	a, b := zz.I32("a"), zz.I32("b")
 	got, ok := foldBinaryLiterals(op, ir.LiteralI32(a), ir.LiteralI32(b))
 	if ok {
+		zzCheckI32(got, op, a, b, "foldBinaryLiterals")
+	}
+	zz.Reach("end")
+}
+
+func ZZ_C06_foldBinaryLiterals_u32() {
+	op := ir.BinaryOperator(zz.Choice("op", zzNumBinOps))
+	a, b := zz.U32("a"), zz.U32("b")
+	if op == ir.BinaryShiftLeft || op == ir.BinaryShiftRight {
+		// shifts by >= 32 are a shader-creation error in WGSL and are handled in ZZ_C06_shift*
+		zz.Assume(b < 32)
+	}
+	got, ok := foldBinaryLiterals(op, ir.LiteralU32(a), ir.LiteralU32(b))
+	if ok {
 		switch op {
-		case ir.BinaryAdd:
-			zz.Assert(got == ir.LiteralValue(ir.LiteralI32(a+b)), "i32 add")
-		case ir.BinarySubtract:
-			zz.Assert(got == ir.LiteralValue(ir.LiteralI32(a-b)), "i32 sub")
-		case ir.BinaryMultiply:
-			zz.Assert(got == ir.LiteralValue(ir.LiteralI32(a*b)), "i32 mul")
-		case ir.BinaryDivide:
-			zz.Assert(b != 0, "i32 div by zero folded")
-			if b != 0 {
-				want := a
-				if !(a == -2147483648 && b == -1) {
-					want = a / b
-				}
-				zz.Assert(got == ir.LiteralValue(ir.LiteralI32(want)), "i32 div")
-			}
-		case ir.BinaryModulo:
-			zz.Assert(b != 0, "i32 mod by zero folded")
-			if b != 0 {
-				want := int32(0)
-				if !(a == -2147483648 && b == -1) {
-					want = a % b
-				}
-				zz.Assert(got == ir.LiteralValue(ir.LiteralI32(want)), "i32 mod")
-			}
-		case ir.BinaryAnd:
-			zz.Assert(got == ir.LiteralValue(ir.LiteralI32(a&b)), "i32 and")
-		case ir.BinaryInclusiveOr:
-			zz.Assert(got == ir.LiteralValue(ir.LiteralI32(a|b)), "i32 or")
-		case ir.BinaryExclusiveOr:
-			zz.Assert(got == ir.LiteralValue(ir.LiteralI32(a^b)), "i32 xor")
+		case ir.BinaryShiftLeft:
+			zz.Assert(got == ir.LiteralValue(ir.LiteralU32(a<<b)), "u32 << folded wrongly")
+		case ir.BinaryShiftRight:
+			zz.Assert(got == ir.LiteralValue(ir.LiteralU32(a>>b)), "u32 >> folded wrongly")
+		default:
+			zzCheckU32(got, op, a, b, "foldBinaryLiterals")
+		}
+	}
+	zz.Reach("end")
+}
+
+func ZZ_C06_foldBinaryLiterals_f32() {
+	op := ir.BinaryOperator(zz.Choice("op", zzNumBinOps))
+	a, b := zz.F32("a"), zz.F32("b")
+	// IR float literals are never NaN or infinite (documented on ir.LiteralF32)
+	zz.Assume(a == a && b == b && a-a == 0 && b-b == 0)
+	got, ok := foldBinaryLiterals(op, ir.LiteralF32(a), ir.LiteralF32(b))
+	if ok {
+		zzCheckF32(got, op, a, b, "foldBinaryLiterals")
+	}
+	zz.Reach("end")
+}
+
+func ZZ_C06_foldBinaryLiterals_bool() {
+	op := ir.BinaryOperator(zz.Choice("op", zzNumBinOps))
+	a, b := zz.Bool("a"), zz.Bool("b")
+	got, ok := foldBinaryLiterals(op, ir.LiteralBool(a), ir.LiteralBool(b))
+	if ok {
+		switch op {
 		case ir.BinaryEqual:
-			zz.Assert(got == ir.LiteralValue(ir.LiteralBool(a == b)), "i32 eq")
+			zz.Assert(got == ir.LiteralValue(ir.LiteralBool(a == b)), "bool ==")
 		case ir.BinaryNotEqual:
-			zz.Assert(got == ir.LiteralValue(ir.LiteralBool(a != b)), "i32 ne")
-		case ir.BinaryLess:
-			zz.Assert(got == ir.LiteralValue(ir.LiteralBool(a < b)), "i32 lt")
-		case ir.BinaryLessEqual:
-			zz.Assert(got == ir.LiteralValue(ir.LiteralBool(a <= b)), "i32 le")
-		case ir.BinaryGreater:
-			zz.Assert(got == ir.LiteralValue(ir.LiteralBool(a > b)), "i32 gt")
-		case ir.BinaryGreaterEqual:
-			zz.Assert(got == ir.LiteralValue(ir.LiteralBool(a >= b)), "i32 ge")
+			zz.Assert(got == ir.LiteralValue(ir.LiteralBool(a != b)), "bool !=")
+		case ir.BinaryAnd, ir.BinaryLogicalAnd:
+			zz.Assert(got == ir.LiteralValue(ir.LiteralBool(a && b)), "bool and")
+		case ir.BinaryInclusiveOr, ir.BinaryLogicalOr:
+			zz.Assert(got == ir.LiteralValue(ir.LiteralBool(a || b)), "bool or")
+		default:
+			zz.Fail("bool operands folded under an operator WGSL does not define on bool")
+		}
+	}
+	zz.Reach("end")
+}
+
+// Shifts with a u32 shift amount below the bit width (the in-range domain).
+func ZZ_C06_foldBinaryLiterals_shift_i32() {
+	left := zz.Bool("left")
+	a := zz.I32("a")
+	s := zz.U32("s")
+	zz.Assume(s < 32)
+	op := ir.BinaryShiftRight
+	if left {
+		op = ir.BinaryShiftLeft
+	}
+	got, ok := foldBinaryLiterals(op, ir.LiteralI32(a), ir.LiteralU32(s))
+	if ok {
+		if left {
+			zz.Assert(got == ir.LiteralValue(ir.LiteralI32(a<<s)), "i32 << folded wrongly")
+		} else {
+			zz.Assert(got == ir.LiteralValue(ir.LiteralI32(a>>s)), "i32 >> folded wrongly")
+		}
+	}
+	zz.Reach("end")
+}
+
+// U2: the Lowerer-level scalar folder used for IR expressions.
+func ZZ_C06_tryFoldBinaryOp_i32() {
+	op := ir.BinaryOperator(zz.Choice("op", zzNumBinOps))
+	a, b := zz.I32("a"), zz.I32("b")
+	if op == ir.BinaryShiftLeft || op == ir.BinaryShiftRight {
+		zz.Assume(b >= 0 && b < 32)
+	}
+	l := zzNewLowerer()
+	h, ok := l.tryFoldBinaryOp(op, l.zzLit(ir.LiteralI32(a)), l.zzLit(ir.LiteralI32(b)))
+	if ok {
+		got, isLit := l.zzLitAt(h)
+		zz.Assert(isLit, "fold result is not a literal")
+		switch op {
+		case ir.BinaryShiftLeft:
+			zz.Assert(got == ir.LiteralValue(ir.LiteralI32(a<<uint32(b))), "i32 << folded wrongly")
+		case ir.BinaryShiftRight:
+			zz.Assert(got == ir.LiteralValue(ir.LiteralI32(a>>uint32(b))), "i32 >> folded wrongly")
+		default:
+			zzCheckI32(got, op, a, b, "tryFoldBinaryOp")
+		}
+	}
+	zz.Reach("end")
+}
+
+func ZZ_C06_tryFoldBinaryOp_u32() {
+	op := ir.BinaryOperator(zz.Choice("op", zzNumBinOps))
+	a, b := zz.U32("a"), zz.U32("b")
+	if op == ir.BinaryShiftLeft || op == ir.BinaryShiftRight {
+		zz.Assume(b < 32)
+	}
+	l := zzNewLowerer()
+	h, ok := l.tryFoldBinaryOp(op, l.zzLit(ir.LiteralU32(a)), l.zzLit(ir.LiteralU32(b)))
+	if ok {
+		got, isLit := l.zzLitAt(h)
+		zz.Assert(isLit, "fold result is not a literal")
+		switch op {
+		case ir.BinaryShiftLeft:
+			zz.Assert(got == ir.LiteralValue(ir.LiteralU32(a<<b)), "u32 << folded wrongly")
+		case ir.BinaryShiftRight:
+			zz.Assert(got == ir.LiteralValue(ir.LiteralU32(a>>b)), "u32 >> folded wrongly")
+		default:
+			zzCheckU32(got, op, a, b, "tryFoldBinaryOp")
+		}
+	}
+	zz.Reach("end")
+}
+
+func ZZ_C06_tryFoldBinaryOp_f32() {
+	op := ir.BinaryOperator(zz.Choice("op", zzNumBinOps))
+	a, b := zz.F32("a"), zz.F32("b")
+	zz.Assume(a == a && b == b && a-a == 0 && b-b == 0)
+	l := zzNewLowerer()
+	h, ok := l.tryFoldBinaryOp(op, l.zzLit(ir.LiteralF32(a)), l.zzLit(ir.LiteralF32(b)))
+	if ok {
+		got, isLit := l.zzLitAt(h)
+		zz.Assert(isLit, "fold result is not a literal")
+		zzCheckF32(got, op, a, b, "tryFoldBinaryOp")
+	}
+	zz.Reach("end")
+}
+
+// U2: vector folds: Compose op Compose, Compose op scalar, scalar op Compose (i32, vec2).
+func ZZ_C06_tryFoldVectorBinaryOp_i32() {
+	op := ir.BinaryOperator(zz.Choice("op", zzNumBinOps))
+	shape := zz.Choice("shape", 3) // 0: v op v, 1: v op s, 2: s op v
+	a0, a1 := zz.I32("a0"), zz.I32("a1")
+	b0, b1 := zz.I32("b0"), zz.I32("b1")
+	if op == ir.BinaryShiftLeft || op == ir.BinaryShiftRight {
+		zz.Assume(b0 >= 0 && b0 < 32 && b1 >= 0 && b1 < 32)
+	}
+	l := zzNewLowerer()
+	vt := l.registerType("", ir.VectorType{Size: 2, Scalar: ir.ScalarType{Kind: ir.ScalarSint, Width: 4}})
+	mkVec := func(x, y int32) ir.ExpressionHandle {
+		c0, c1 := l.zzLit(ir.LiteralI32(x)), l.zzLit(ir.LiteralI32(y))
+		return l.addExpressionRaw(ir.Expression{Kind: ir.ExprCompose{Type: vt, Components: []ir.ExpressionHandle{c0, c1}}})
+	}
+	var lh, rh ir.ExpressionHandle
+	var la, lb, ra, rb int32
+	switch shape {
+	case 0:
+		lh, rh = mkVec(a0, a1), mkVec(b0, b1)
+		la, lb, ra, rb = a0, a1, b0, b1
+	case 1:
+		lh, rh = mkVec(a0, a1), l.zzLit(ir.LiteralI32(b0))
+		la, lb, ra, rb = a0, a1, b0, b0
+	default:
+		lh, rh = l.zzLit(ir.LiteralI32(a0)), mkVec(b0, b1)
+		la, lb, ra, rb = a0, a0, b0, b1
+	}
+	h, ok := l.tryFoldVectorBinaryOp(op, lh, rh)
+	if ok {
+		c, isC := l.currentFunc.Expressions[h].Kind.(ir.ExprCompose)
+		zz.Assert(isC && len(c.Components) == 2, "vector fold result is not a 2-component Compose")
+		if isC && len(c.Components) == 2 {
+			g0, ok0 := l.zzLitAt(c.Components[0])
+			g1, ok1 := l.zzLitAt(c.Components[1])
+			zz.Assert(ok0 && ok1, "vector fold components are not literals")
+			if op == ir.BinaryShiftLeft {
+				zz.Assert(g0 == ir.LiteralValue(ir.LiteralI32(la<<uint32(ra))) && g1 == ir.LiteralValue(ir.LiteralI32(lb<<uint32(rb))), "vector << folded wrongly")
+			} else if op == ir.BinaryShiftRight {
+				zz.Assert(g0 == ir.LiteralValue(ir.LiteralI32(la>>uint32(ra))) && g1 == ir.LiteralValue(ir.LiteralI32(lb>>uint32(rb))), "vector >> folded wrongly")
+			} else {
+				zzCheckI32(g0, op, la, ra, "tryFoldVectorBinaryOp[0]")
+				zzCheckI32(g1, op, lb, rb, "tryFoldVectorBinaryOp[1]")
+			}
 		}
 	}
 	zz.Reach("end")
